@@ -150,15 +150,17 @@ func (e *swExtractor) Extract(ctx context.Context, input *filesystem.ScanInput) 
 		return inventory.Inventory{}, fmt.Errorf("read failed: %w", err)
 	}
 	pkg := &extractor.Package{Name: key, Version: "1", Locations: []string{input.Path}}
+	// a second package that ties with every other extraction's on name and version (sort keys 3 and 4 decide)
+	tie := &extractor.Package{Name: "tie", Version: "1", Locations: []string{input.Path}}
 	switch e.out[input.Path] {
 	case "err":
 		return inventory.Inventory{}, errors.New("extraction failed")
 	case "errpkg":
-		return inventory.Inventory{Packages: []*extractor.Package{pkg}}, errors.New("extraction partly failed")
+		return inventory.Inventory{Packages: []*extractor.Package{pkg, tie}}, errors.New("extraction partly failed")
 	case "empty":
 		return inventory.Inventory{}, nil
 	}
-	return inventory.Inventory{Packages: []*extractor.Package{pkg}}, nil
+	return inventory.Inventory{Packages: []*extractor.Package{tie, pkg}}, nil
 }
 
 type swStandalone struct{ s *swSession }
@@ -216,6 +218,7 @@ type swObs struct {
 	DupStatus  bool           `json:"dup_status"`
 	Standalone int            `json:"standalone"`
 	Detector   int            `json:"detector"`
+	Ties       int            `json:"ties"`
 	AfterCanc  []string       `json:"after_cancel"`
 	Panic      string         `json:"panic,omitempty"`
 }
@@ -435,6 +438,10 @@ func runScanWalk(c *swCase, mode, nmName, tmp string, faultKind int) (obs swObs)
 	}
 	pk := map[string]int{}
 	for _, p := range res.Inventory.Packages {
+		if p.Name == "tie" {
+			obs.Ties++
+			continue
+		}
 		key := p.Name
 		if p.Extractor != nil {
 			parts := strings.SplitN(p.Name, "|", 3)
